@@ -26,31 +26,27 @@ def list_obligation(chk, prog, spec, hs):
     method, service, entity, kind, field, soft = spec
     h = [x for x in hs if x['method'] == method][0]
     sizes = {'Topic': 2, 'Subscription': 0, 'Message': 0, 'Delivery': 0, 'Snapshot': 0}
-    sizes[entity] = 3
+    sizes[entity] = 3 if entity != 'Subscription' else 2
     if entity != 'Topic':
         sizes['Topic'] = 1
 
     def harness(ex, ob):
         db = reldb.sym_db(ex, prog, sizes, exists=True)
+        plain_config(ex, db)
         rows = name_rows(ex, db, entity, kind)
-        q = z3.String('req.projectname')
-        ex.assume(z3.And(q != '', z3.Not(z3.Contains(q, '/'))))
-        project = z3.Concat(z3.StringVal('projects/'), q)
+        q = PROJECT_VOCAB[ex.choose(len(PROJECT_VOCAB))]
+        project = 'projects/' + q
         ps = z3.Int('req.page_size')
         ex.assume(z3.And(ps >= -2**31, ps < 2**31))
         has_tok = ex.choose(2) == 1
         tok = z3.Int('req.page_token_id')
         ex.assume(z3.And(tok >= 0, tok < 2**128))
-        if has_tok:
-            tokstr = uuid_str_fn()(tok)
-            ex.assume(z3.And(uuid_parse_fn()(tokstr) == tok, tokstr != ''))
-        else:
-            tokstr = ''
+        tokstr = UUIDStr(tok) if has_tok else ''
         req = ex.new_ptr(ex.new_struct(PB + method + 'Request', Project=project, PageSize=ps, PageToken=tokstr))
         resp, err, code = call_handler(ex, db, h, req)
 
         def describe(m):
-            return {'project': 'projects/' + replay.mval(m, q), 'page_size': replay.mval(m, ps), 'page_token': replay.uuid_str(replay.mval(m, tok)) if has_tok else '',
+            return {'project': 'projects/' + q, 'page_size': replay.mval(m, ps), 'page_token': replay.uuid_str(replay.mval(m, tok)) if has_tok else '',
                     'rows': replay.rows_from_model(m, db.schema, db.t)}
 
         def rp(m, desc):
@@ -82,13 +78,15 @@ def list_obligation(chk, prog, spec, hs):
             ids.append(match)
         cands = []
         for r, p, l in rows:
-            c = And(r.exists, ex.eq(p, q))
+            c = And(r.exists, p == q)
             if entity != 'Snapshot':
                 c = And(c, r.isnull('deleted_at'))
             if has_tok:
                 c = And(c, r.v['id'] > tok)
             cands.append((c, r))
         ncand = sum([Ite(c, 1, 0) for c, _ in cands])
+        if os.environ.get('DBG'):
+            print('PC', ex.pc[-8:]); print('F', simp(ex.eq(len(items), Ite(ncand < eff, ncand, eff)))); sys.stdout.flush()
         ob.verify(ex, 'page-length', ex.eq(len(items), Ite(ncand < eff, ncand, eff)), describe, replay=rp, known=known_pred)
         # every returned item is a candidate; returned ids strictly increase; nothing smaller was skipped
         last_id = None
@@ -106,10 +104,17 @@ def list_obligation(chk, prog, spec, hs):
                       describe, replay=rp, known=known_pred)
         nxt = ex.getf(resp, 'NextPageToken')
         if items:
-            ob.verify(ex, 'next-page-token', Ite(len(items) >= eff, ex.eq(nxt, uuid_str_fn()(zint(last_id))), ex.eq(nxt, '')), describe, replay=rp)
+            ob.verify(ex, 'next-page-token', And(Implies(eff <= len(items), ex.eq(nxt, UUIDStr(last_id))), Implies(eff > len(items), ex.eq(nxt, ''))), describe, replay=rp)
         else:
             ob.verify(ex, 'next-page-token', ex.eq(nxt, ''), describe, replay=rp)
-    chk.run('list:' + method, prog, harness, bounds=dict(sizes, page_size='any int32', page_token='absent or any uuid'), setup=world.setup, max_paths=100000)
+    chk.run('list:' + method, prog, harness, bounds=dict(sizes, page_size='any int32', page_token='absent or any uuid', projects='vocabulary %s for every row and for the request' % PROJECT_VOCAB), setup=world.setup, max_paths=100000)
+
+
+def plain_config(ex, db):
+    """listing / getting does not depend on the optional configuration columns: keep them NULL here (they are C17's subject)"""
+    for r in db.t['Subscription']:
+        for col in ('min_backoff', 'max_backoff', 'push_endpoint', 'filter', 'max_delivery_attempts', 'dead_letter_topic_id'):
+            r.null[col] = True
 
 
 def known_pred(pred, m, desc):
@@ -122,11 +127,13 @@ def get_obligation(chk, prog, method, service, entity, kind, field, hs):
 
     def harness(ex, ob):
         db = reldb.sym_db(ex, prog, sizes, exists=True)
-        name, p, l = valid_name(ex, kind, 'req')
+        plain_config(ex, db)
+        name_rows(ex, db, entity, kind)
+        name = 'projects/%s/%s/r%d' % (PROJECT_VOCAB[ex.choose(len(PROJECT_VOCAB))], kind, ex.choose(3))
         req = ex.new_ptr(ex.new_struct(PB + 'Get%sRequest' % entity, **{field: name}))
         resp, err, code = call_handler(ex, db, h, req)
         live = Or(*[And(r.exists, ex.eq(r.v['name'], name), True if entity == 'Snapshot' else r.isnull('deleted_at')) for r in db.t[entity]])
-        d = lambda m: {'name': replay.mval(m, name), 'rows': replay.rows_from_model(m, db.schema, {entity: db.t[entity]})}
+        d = lambda m: {'name': name, 'rows': replay.rows_from_model(m, db.schema, {entity: db.t[entity]})}
         ob.verify(ex, 'get-succeeds-iff-live', ex.eq(err is None, live), d)
         if err is not None:
             ob.verify(ex, 'absent-is-NotFound', code == 5, d)
@@ -205,6 +212,7 @@ def racing_create(chk, prog):
         T.name = 'racing-' + T.name
         T.dialect = 'postgres'
         T.witness_count = 0
+        T.no_replay = True      # PostgreSQL-only behaviour: cannot be replayed on SQLite
 
         def fault_hook(ex):
             def h(ex_, db, b, row):
